@@ -272,7 +272,7 @@ pub fn check_split(a: &str, b: &str) -> Option<String>
 // ---------------------------------------------------------------------------
 // Universe
 
-pub const ALPHABET: [&str; 11] = ["", ":", "a", "b", "\ta", "\tb", "\t\ta", "\t", ";", "a\r", "é"];
+pub const ALPHABET: [&str; 13] = ["", ":", "a", "b", "\ta", "\tb", "\t\ta", "\t", ";", "a\r", "é", " a", "\t a"];
 
 fn text_of(idx: &[usize], final_newline: bool) -> String
 {
@@ -298,6 +298,7 @@ pub fn run(rep: &mut Report, tier: &str)
 {
     let thorough = tier == "thorough";
     let max_lines = if thorough { 7 } else { 6 };
+    // 13^6 = 4.8 M texts x 2 in the quick tier
     let threads = crate::cli::threads();
     let found = Arc::new(Found { map: Mutex::new(BTreeMap::new()) });
     let count = Arc::new(AtomicU64::new(0));
@@ -462,6 +463,7 @@ fn rendered_bases() -> Vec<String>
         "build/game\n:\nsrc/game.h\nsrc/game.cpp\n:\nc++\nsrc/game.cpp\n-o build/game\n:\n".to_string(),
         "build\n\tgame\n\tlib\n\t\tm.o\n:\nsrc\n\tgame.h\n\tgame.cpp\n:\nc++\n;\nstrip\n:\n\nout\n:\nbuild\n\tgame\n:\ncp\n:\n".to_string(),
         "b\na\nb\n:\nz\n\ty\n\tx\nz\n\tx\n\ty\n:\ncmd\n:\n".to_string(),
+        " lead\ntrail \n\u{a0}nbsp\n:\n\rcr\nd\n\t e\n:\n  spaced command \n:\n".to_string(),
         "t\n:\ns\n:\n:\n".to_string(),
     ]
 }
